@@ -48,8 +48,11 @@ def gcov_dir(d):
     gcdas = sorted(glob.glob(d + "/*.gcda"))
     if not gcdas:
         return res
-    p = subprocess.run(["gcov", "--json-format", "--stdout"] + gcdas, cwd=d, stdout=subprocess.PIPE, stderr=subprocess.DEVNULL)
-    for chunk in p.stdout.decode(errors="replace").split("\n"):
+    outs = []
+    for g in gcdas:      # one at a time: a counter file cut short by a SIGKILLed process must not hide the others
+        p = subprocess.run(["gcov", "--json-format", "--stdout", g], cwd=d, stdout=subprocess.PIPE, stderr=subprocess.DEVNULL)
+        outs.append(p.stdout.decode(errors="replace"))
+    for chunk in "\n".join(outs).split("\n"):
         chunk = chunk.strip()
         if not chunk.startswith("{"):
             continue
